@@ -30,7 +30,12 @@ class Hist:
         env = {k: v for k, v in os.environ.items() if not k.startswith('LC_') and k != 'LANG'}
         env.update(ASAN_OPTIONS='detect_leaks=0:abort_on_error=0', UBSAN_OPTIONS='print_stacktrace=0')
         env.update(env_extra)
-        p = subprocess.run([self.exe, mode, path, self.regions], capture_output=True, text=True, env=env, cwd=self.sc.dir, errors='replace')
+        try:
+            p = subprocess.run([self.exe, mode, path, self.regions], capture_output=True, text=True, env=env, cwd=self.sc.dir, errors='replace', timeout=600)
+        except subprocess.TimeoutExpired as ex:      # a hang of the library under test must not hang the check
+            class R: pass
+            p = R(); p.returncode = -9; p.stdout = ex.stdout.decode('latin1') if isinstance(ex.stdout, bytes) else (ex.stdout or '')
+            p.stderr = (ex.stderr.decode('latin1') if isinstance(ex.stderr, bytes) else (ex.stderr or '')) + '\n[harness killed after 600 s: hang]'
         res = {}; states = []; other = []; last_begin = None
         for l in p.stdout.splitlines():
             if l.startswith('R '):
